@@ -47,10 +47,33 @@ type Layer struct {
 
 func fmtText(s *Spec) string { return "lit " + s.S[0] + " u=" + s.S[1] + " s=" + s.S[2] }
 
+// The model functions call each other recursively (the text of a node
+// needs the text of its cause): within one outermost call the text of
+// every node is computed once. (Without this the cost doubles with
+// every layer, which only shows beyond the usual depth of 8.) Not for
+// concurrent use.
+var (
+	textMemo   map[*Spec]string
+	modelDepth int
+)
+
+func enterModel() func() {
+	if modelDepth == 0 {
+		textMemo = map[*Spec]string{}
+	}
+	modelDepth++
+	return func() { modelDepth-- }
+}
+
 // Text is the expected Error() of the whole spec.
 func Text(s *Spec) string {
-	ls := Chain(s)
-	return TextAt(ls, 0)
+	defer enterModel()()
+	if v, ok := textMemo[s]; ok {
+		return v
+	}
+	v := TextAt(Chain(s), 0)
+	textMemo[s] = v
+	return v
 }
 
 // TextAt computes the expected Error() text of layer i of a chain.
@@ -72,6 +95,7 @@ func TextAt(ls []Layer, i int) string {
 
 // Chain returns all layers from s down its single-cause chain.
 func Chain(s *Spec) []Layer {
+	defer enterModel()()
 	var out []Layer
 	for c := s; c != nil; {
 		ls := layersOf(c)
@@ -485,6 +509,18 @@ func layersOf(s *Spec) []Layer {
 		return []Layer{mk(s, "*gen.UWrapSafeFmt", Full, S(0)+" "+S(1)+": "+causeText())}
 	case "uopt":
 		return []Layer{mk(s, "*gen.UOpt", Full, S(0))}
+	case "uwrapbothfmt":
+		return []Layer{mk(s, "*gen.UWrapBothFmt", Full, S(0)+" "+S(1)+": "+causeText())}
+	case "uwrapstackdetails":
+		l := mk(s, "*gen.UWrapStackDetails", Full, S(1)+": "+causeText())
+		l.Stack = true
+		return []Layer{l}
+	case "ucodedanon":
+		return []Layer{mk(s, "struct { error; Code int }", Leaf, S(0))}
+	case "uzeroa":
+		return []Layer{mk(s, "*gen.ZeroA", Leaf, "zero-a")}
+	case "uzerob":
+		return []Layer{mk(s, "*gen.ZeroB", Leaf, "zero-b")}
 	case "uwrapfmtold":
 		return []Layer{mk(s, "*gen.UWrapFmtOld", Full, S(0)+": "+causeText())}
 	case "rwrapfull":
@@ -564,6 +600,14 @@ func layersOf(s *Spec) []Layer {
 			t += "; " + Text(x)
 		}
 		l := mk(s, "*gen.UMultiCauser", Leaf, t)
+		l.Multi = s.X
+		return []Layer{l}
+	case "umultiholes":
+		t := S(0)
+		for _, x := range s.X {
+			t += "; " + Text(x)
+		}
+		l := mk(s, "*gen.UMultiHoles", Leaf, t)
 		l.Multi = s.X
 		return []Layer{l}
 	case "umultiis":
